@@ -2,6 +2,7 @@ package protocol
 
 import (
 	"fmt"
+	"sync"
 
 	"github.com/pkg/errors"
 
@@ -151,9 +152,11 @@ func (c chainBridge) InsertChain(momentums []*nom.DetailedMomentum) (int, error)
 	}
 
 	// if we are dealing with a side-chain, check if it should replace our chain and rollback for insertion
+	var replaced []*nom.DetailedMomentum
+	var target *nom.Momentum
 	if head.Previous() != ourFrontier.Identifier() {
 		// check if we can roll back for insertion
-		target, err := store.GetMomentumByHeight(head.Height - 1)
+		target, err = store.GetMomentumByHeight(head.Height - 1)
 		if err != nil {
 			return 0, err
 		}
@@ -175,13 +178,44 @@ func (c chainBridge) InsertChain(momentums []*nom.DetailedMomentum) (int, error)
 			return 0, errors.Errorf("won't insert side-chain which is not longer")
 		}
 
+		// keep our own momentums: the side-chain is verified while it is inserted, after the rollback
+		for height := target.Height + 1; height <= ourFrontier.Height; height += 1 {
+			our, err := store.GetMomentumByHeight(height)
+			if err != nil || our == nil {
+				return 0, errors.Errorf("unable to read own momentum at height %v before rollback. Reason:%v", height, err)
+			}
+			detailed, err := store.PrefetchMomentum(our)
+			if err != nil {
+				return 0, errors.Errorf("unable to read own momentum %v before rollback. Reason:%v", our.Identifier(), err)
+			}
+			replaced = append(replaced, detailed)
+		}
+
 		err = c.chain.RollbackTo(insert, target.Identifier())
 		if err != nil {
 			return 0, errors.Errorf("unable to rollback to %v. Reason:%v", target.Identifier(), err)
 		}
 	}
 
-	// Insert momentum now
+	index, err := c.insertMomentums(insert, momentums)
+	if err != nil && len(replaced) != 0 && uint64(index) <= uint64(len(replaced)) {
+		// the side-chain failed verification and its verified part is not longer than what it replaced:
+		// we stay on our own chain
+		log.Info("side-chain failed verification. Restoring own momentums", "reason", err, "num-momentums", len(replaced))
+		if rollbackErr := c.chain.RollbackTo(insert, target.Identifier()); rollbackErr != nil {
+			log.Error("unable to rollback the side-chain", "reason", rollbackErr)
+		} else if _, restoreErr := c.insertMomentums(insert, replaced); restoreErr != nil {
+			log.Error("unable to restore own momentums", "reason", restoreErr)
+		}
+	}
+	if err != nil {
+		return index + start, err
+	}
+	return 0, nil
+}
+
+// insertMomentums verifies and inserts momentums on top of the frontier; returns the index of the first failing one
+func (c chainBridge) insertMomentums(insert sync.Locker, momentums []*nom.DetailedMomentum) (int, error) {
 	for index, detailed := range momentums {
 		for _, block := range detailed.AccountBlocks {
 			if block.BlockType == nom.BlockTypeContractSend {
@@ -194,21 +228,21 @@ func (c chainBridge) InsertChain(momentums []*nom.DetailedMomentum) (int, error)
 			transaction, err := c.supervisor.ApplyBlock(block)
 			if err != nil {
 				log.Error("error while applying account-block", "reason", err, "account-block-header", block.Header())
-				return index + start, err
+				return index, err
 			}
 			if err := c.chain.ForceAddAccountBlockTransaction(insert, transaction); err != nil {
 				log.Error("error while inserting account-block in pool", "reason", err, "account-block-header", block.Header())
-				return index + start, err
+				return index, err
 			}
 		}
 
 		transaction, err := c.supervisor.ApplyMomentum(detailed)
 		if err != nil {
-			return index + start, err
+			return index, err
 		}
 		if err := c.chain.AddMomentumTransaction(insert, transaction); err != nil {
 			log.Error("error while inserting momentum", "reason", err, "momentum-identifier", detailed.Momentum.Identifier())
-			return index + start, err
+			return index, err
 		}
 	}
 
